@@ -361,7 +361,8 @@ func GenRecord(rt *rapid.T, o Options) *Record {
 		}
 	}
 	if Chance(rt, "bias?", p) {
-		v := [2]int32{int32(rapid.IntRange(-127, 127).Draw(rt, "bias.n")), int32(rapid.IntRange(1, 127).Draw(rt, "bias.d"))}
+		// (everything the 8 + 8 bits of meta.ExposureBias hold: numerators -128..127, denominators 1..255)
+		v := [2]int32{int32(rapid.IntRange(-128, 127).Draw(rt, "bias.n")), int32(rapid.IntRange(1, 255).Draw(rt, "bias.d"))}
 		if o.CameraBias && Chance(rt, "bias.camera", 0.7) {
 			// the way cameras write compensation: steps of 1/3 or 1/2 EV up to +-5 EV over the denominators 1, 2, 3, 6, 10, 100
 			d := int32(rapid.SampledFrom([]int{1, 2, 3, 6, 10, 100}).Draw(rt, "bias.cd"))
